@@ -182,6 +182,8 @@ end
 inductive Out where
   | done (t : Trace) (status : Option Nat)
   | err (t : Trace) (st : Nat) (r : Req)
+  | reached (r : Req) (t : Trace)   -- only inside `Subroute.ServeHTTP`: "the handler behind the
+                                    -- subroute was reached with this request" (see `reachK`)
 deriving DecidableEq, Repr
 
 abbrev K := Req → Trace → Out
@@ -191,6 +193,12 @@ def writeStatus : Option Nat → Nat
   | some 0 => 500
   | some st => st
   | none => 500
+
+/-- the marker `Subroute.ServeHTTP` compiles its routes with: the code wraps `next` and remembers
+    (`nextFailed`) whether an error came out of it; since no modelled handler does anything after
+    `next` returns, that is the same as stopping at the marker and running `next` afterwards,
+    outside the reach of the subroute's error routes. -/
+def reachK : K := fun r t => .reached r t
 
 /-- `emptyHandler`: sets the `unhandled` var, writes nothing -/
 def emptyK : K := fun _ t => .done t none
@@ -229,9 +237,11 @@ def runHandler : Handler → K → K
       | none => .err t 500 r          -- `return Error(http.StatusInternalServerError, err)`
   | .invoke _, _ => fun r t => .err t 0 r   -- `fmt.Errorf("invoke: route '%s' not found", …)`
   | .sub rs hasErrs errs, k => fun r t =>
-    -- Subroute.ServeHTTP: `sr.Routes.Compile(next)`; on error and `sr.Errors != nil`:
+    -- Subroute.ServeHTTP: `sr.Routes.Compile(<next, remembering whether it failed>)`; on an error
+    -- of the subroute's OWN routes (`!nextFailed`) and `sr.Errors != nil`:
     -- `sr.Errors.WithError(r, err)`, `sr.Errors.Routes.Compile(next)` — no URI restore
-    match runRoutes rs k r t with
+    match runRoutes rs reachK r t with
+    | .reached r' t' => k r' t'           -- whatever the rest of the chain returns is returned as is
     | .done t' s => .done t' s
     | .err t' st r' =>
       if hasErrs then runRoutes errs k (withError st r') t'
@@ -263,10 +273,12 @@ deriving DecidableEq, Repr
 def serve (routes : List Route) (hasErrs : Bool) (errs : List Route) (req : Req) : Result :=
   match runRoutes routes emptyK { req with groups := [], ctxErr := none, replStatus := none } [] with
   | .done t s => ⟨t, s⟩
+  | .reached _ t => ⟨t, none⟩          -- never happens (`Props.serve_chain_never_returns_marker`)
   | .err t st r' =>
     if hasErrs && !errs.isEmpty then
       match runRoutes errs errorEmptyK (withError st { r' with path := req.path }) t with
       | .done t2 s2 => ⟨t2, s2⟩
+      | .reached _ t2 => ⟨t2, none⟩
       | .err t2 _ _ => ⟨t2, some (writeStatus (some st))⟩
     else ⟨t, some (writeStatus (some st))⟩
 
